@@ -36,6 +36,16 @@ func Run(prop, tier string) int {
 			}
 			sum = MergeSummaries(sum, RunMaster(vc, []string{"worker", prop, tier, v}))
 		}
+		if prop == "C10" {
+			n, fs := c10kAll()
+			sum.Clauses["boundary_cases(engine K: factor/trigger at health/price +-1e-18)"] = n
+			sum.Violations = append(sum.Violations, fs...)
+		}
+		if prop == "C12" {
+			n, fs := c12kAll()
+			sum.Clauses["deduct_from_committed_cases(engine K product)"] = n
+			sum.Violations = append(sum.Violations, fs...)
+		}
 		return Conclude(cfg, sum)
 	}
 	if f, ok := OtherEngines[prop]; ok {
